@@ -26,6 +26,11 @@ CLAIMED = {
         text='Exploration over the 6x6 keepalive grid x idle times with traffic placed 1 ms before, at and 1 ms after each deadline (virtual clock), a mute-peer family for the terminating-endpoint clause (idle times x keepalives x request offsets x in-flight bundle) and seeded adaptive-segment-size runs with 1 ms network latency; every KEEPALIVE must follow exactly K of own silence, no silence longer than K, SESS_TERM(idle-timeout) exactly at I without traffic, closure by request + I.',
         note=_NOTE + ' Timer verdicts use the virtual clock only.',
     ),
+    'C18': dict(
+        technique='runtime monitor: every signal emission and method return checked against its declared signature by a model of dbus-python marshalling calibrated on the real library; shadow-model invariant evaluated after every event-loop callback and boundary call',
+        text='Exploration: seeded two-endpoint scenarios with boundary calls (send, pop, queue and idle queries, terminate) interleaved at random scheduler steps and the queue/idle invariant evaluated after EVERY callback; scripted-peer refusal runs so that every contact signal is emitted; two real tcpcl.agent.Agent objects over the simulated listen/accept/connect path with shutdown() at 0-3 contacts in mixed states; the real UDPCL agent with benign transfers and hostile polling items.',
+        note=_NOTE + ' The marshalling model is calibrated on 857 (signature, value) rows produced by real dbus-python 1.3.2.',
+    ),
     'C17': dict(
         technique='runtime monitor of loop exception records, decoded wire output, receive queue and own-transfer progress of a real endpoint driven by a scripted adversarial peer, judged by a peer-model automaton',
         text='Exploration with exhaustive sub-spaces: in each of six endpoint states and both roles, all sequences of length <= 2 (thorough <= 3 over a reduced alphabet) of ~16 state-relative messages (segments, ACKs, refusals, SESS_TERM, unknown types, bad contact headers), then seeded random sequences up to length 12; afterwards the scripted peer acknowledges honestly and the endpoint\'s own transfers must complete.',
